@@ -360,6 +360,19 @@ def make_url_files(tmpdir):
             with RDBWriter(path) as w:
                 w.save(ts)
             files[(dcb, ds)] = path
+            # the same file as an older writer would have produced it: the recorded defaults, the stream types and
+            # the inherit links are byte strings
+            tsb = build_telstate(entries)
+            for k_ in list(entries):
+                if entries[k_][0] == 'S':
+                    tsb.delete(k_)
+                    tsb[k_] = entries[k_][1].encode()
+            for k_ in ('chunk_info', 'sync_time', 'first_timestamp', 'int_time'):
+                tsb[k_] = ts[k_]
+            pathb = os.path.join(tmpdir, f'fb_{dcb}_{ds}.rdb')
+            with RDBWriter(pathb) as w:
+                w.save(tsb)
+            files[(dcb, ds, 'bytes')] = pathb
     return files
 
 
@@ -370,12 +383,12 @@ def gen_url_case(rng):
                 qcb=pick([None, None, 'cba', 'cbb']), kcb=pick(['-', '-', None, '', 'cba', 'cbb']),
                 qs=pick([None, None, 'l0', 'l0b', 'fl', 'cal', 'l0c', 'l0d', 'fx']),
                 ks=pick(['-', '-', '-', None, '', 'l0', 'l0b', 'fl', 'l0c', 'l0d', 'fx']),
-                dup=rng.random() < 0.15, style=pick(['path', 'file']))
+                dup=rng.random() < 0.15, style=pick(['path', 'file']), bytes=rng.random() < 0.25)
 
 
 def run_url(ctx, case, files):
     from katdal.datasources import TelstateDataSource
-    path = files[(case['dcb'], case['ds'])]
+    path = files[(case['dcb'], case['ds'], 'bytes')] if case.get('bytes') else files[(case['dcb'], case['ds'])]
     q = []
     if case['qcb'] is not None:
         q.append(('capture_block_id', case['qcb']))
